@@ -142,14 +142,14 @@ var opSMT = map[Op]string{
 }
 
 type Term struct {
-	ID   int
-	Op   Op
-	Sort Sort
-	Args []*Term
-	C    uint64 // constant payload: BV value (masked), bool (0/1), FP bits
-	Name string // var / UF name
-	HasF bool   // mentions floating point somewhere below
-	vars     []int // variable ids below (lazily computed)
+	ID       int
+	Op       Op
+	Sort     Sort
+	Args     []*Term
+	C        uint64 // constant payload: BV value (masked), bool (0/1), FP bits
+	Name     string // var / UF name
+	HasF     bool   // mentions floating point somewhere below
+	vars     []int  // variable ids below (lazily computed)
 	varsDone bool
 }
 
@@ -284,6 +284,9 @@ func (s *TermStore) And(a, b *Term) *Term {
 	if a == b {
 		return a
 	}
+	if (a.Op == OpNot && a.Args[0] == b) || (b.Op == OpNot && b.Args[0] == a) {
+		return s.False
+	}
 	return s.mk(OpAnd, SBool, 0, "", a, b)
 }
 
@@ -302,6 +305,9 @@ func (s *TermStore) Or(a, b *Term) *Term {
 	}
 	if a == b {
 		return a
+	}
+	if (a.Op == OpNot && a.Args[0] == b) || (b.Op == OpNot && b.Args[0] == a) {
+		return s.True
 	}
 	return s.mk(OpOr, SBool, 0, "", a, b)
 }
@@ -719,6 +725,16 @@ func (s *TermStore) fbin(op Op, a, b *Term) *Term {
 	switch op {
 	case OpFLt, OpFLe, OpFEq:
 		rs = SBool
+	}
+	switch op {
+	case OpFAdd, OpFMul, OpFEq:
+		// IEEE addition / multiplication / equality are commutative: canonical operand order
+		if a.ID > b.ID {
+			a, b = b, a
+		}
+	}
+	if op == OpFEq && a == b {
+		return s.Not(s.FIsNaN(a))
 	}
 	return s.mk(op, rs, 0, "", a, b)
 }
